@@ -225,10 +225,12 @@ def pDictionary (inp : Bytes) : Option (Dict × Bytes) :=
   match inp with
   | 60 :: 60 :: r =>
     let fuel := inp.length + 1
-    let (es, r1) := dictEntries fuel fuel (space r) []
-    (match r1 with
-     | 62 :: 62 :: r2 => some (es, r2)
-     | _ => none)
+    (match dictEntries fuel 1 fuel (space r) [] with
+     | some (es, r1) =>
+       (match r1 with
+        | 62 :: 62 :: r2 => some (es, r2)
+        | _ => none)
+     | none => none)
   | _ => none
 
 /-- `trailer`: `trailer` space dictionary space -/
@@ -308,7 +310,9 @@ def pIndirect (len : ObjId → Option Int) (expected : Option ObjId) (base : Nat
         | .ok (.pending d p) _ => some ((n, g), .pending d (base + objectOffset + p))
         | .failure => none
         | .error =>
-          (directObjects (r4.length + 1) r4).map fun (o, _) => ((n, g), .plain o)
+          (match directObjects (r4.length + 1) 0 r4 with
+           | .ok o _ => some ((n, g), .plain o)
+           | _ => none)
 
 /-! ### cross-reference streams (`decode_xref_stream`) -/
 
